@@ -96,7 +96,19 @@ def run_case(ctx, rng, graph, gkind, i):
     trunc = [None, None, max(1, block - 1), block + 3][(i // 3) % 4]
     n = 6 * max(block, 2) + int(rng.integers(4, 20))
     X = gmrfmon.make_data(rng, n, V, k)
+    # the same data in another unit / another frame of reference: a covariance does not care where the origin is, and every
+    # documented cut-off is relative
+    variant = ["plain", "plain", "small_unit", "far_offset"][(i // 7) % 4]
+    if variant == "far_offset" and (dtype != np.float64 or i % 3 == 0 or i % 5 == 0):
+        variant = "plain"          # (models that keep learning accumulate raw moments: driven near the origin only)
+    unit = 1.0
+    if variant == "small_unit":
+        unit = 10.0 ** rng.uniform(-7, -3)
+        X = X * unit
+    elif variant == "far_offset":
+        X = X + rng.choice([-1.0, 1.0], X.shape[1]) * 10.0 ** rng.uniform(3, 6)     # map coordinates, time stamps
     gmrfmon.clear()
+    gmrfmon.UNIT[0] = unit
     models = {}
     for sparse in (True, False):
         Xin = X.copy() if rng.random() < 0.5 else [row.copy() for row in X]
@@ -114,7 +126,7 @@ def run_case(ctx, rng, graph, gkind, i):
     if Qs.shape != Qd.shape or not (e <= (1e-9 if dtype == np.float64 else 1e-5) * nrm):
         ctx.fail("sparse_and_dense_precision_differ", cls="GMRFVectorModel", mech="%s:%s" % (gkind, "isolated_vertices" if iso else "no_isolated"), rel_err=e / nrm)
     # distances: zero at the mean, non-negative, single == batch, sparse == dense
-    q = X[:7] + rng.normal(scale=0.5, size=(7, X.shape[1]))
+    q = X[:7] + rng.normal(scale=0.5 * unit, size=(7, X.shape[1]))
     ds = {}
     for sparse, m in models.items():
         d0 = m.mahalanobis_distance(np.asarray(m.mean_vector, dtype=float).copy())
@@ -134,7 +146,7 @@ def run_case(ctx, rng, graph, gkind, i):
     if i % 23 == 5:
         # a large batch of queries (several hundred, not a round number): every entry is the single-query distance
         nq = int(rng.integers(513, 1400))
-        Q = X[rng.integers(0, len(X), nq)] + rng.normal(scale=0.5, size=(nq, X.shape[1]))
+        Q = X[rng.integers(0, len(X), nq)] + rng.normal(scale=0.5 * unit, size=(nq, X.shape[1]))
         big = {sp_: np.asarray(m_.mahalanobis_distance(Q), dtype=float) for sp_, m_ in models.items()}
         ctx.tap("large_query_batches", "calls"); ctx.tap("large_query_batches", "checked")
         tail = np.array([float(models[True].mahalanobis_distance(row)) for row in Q[-5:]])
@@ -146,7 +158,7 @@ def run_case(ctx, rng, graph, gkind, i):
         vm = GMRFVectorModel(X.copy(), graph, mode=mode, n_components=trunc, dtype=dtype, sparse=bool(i % 2), bias=bias, incremental=True)
         seen = X
         for _k in range(int(rng.integers(1, 4))):
-            more = gmrfmon.make_data(rng, int(rng.integers(1, 9)) + (0 if _k else 3), V, k)
+            more = gmrfmon.make_data(rng, int(rng.integers(1, 9)) + (0 if _k else 3), V, k) * unit
             if rng.random() < 0.4:
                 import io, contextlib
                 with contextlib.redirect_stdout(io.StringIO()):
@@ -155,7 +167,7 @@ def run_case(ctx, rng, graph, gkind, i):
                 vm.increment(more.copy())
             seen = np.vstack([seen, more])
             ctx.tap("vector_model_increment", "calls"); ctx.tap("vector_model_increment", "checked")
-            if vm.n_samples != len(seen) or _amax(np.asarray(vm.mean_vector, dtype=float) - seen.mean(0)) > (1e-9 if dtype == np.float64 else 1e-4) * max(1.0, float(np.abs(seen).max())):
+            if vm.n_samples != len(seen) or _amax(np.asarray(vm.mean_vector, dtype=float) - seen.mean(0)) > (1e-9 if dtype == np.float64 else 1e-4) * max(unit, float(np.abs(seen).max())):
                 ctx.fail("model_mean_is_not_the_sample_mean", cls="GMRFVectorModel", mech="after_increment:" + ("sample_count" if vm.n_samples != len(seen) else "mean"))
             d0 = float(vm.mahalanobis_distance(seen.mean(0)))
             if not (abs(d0) <= 1e-5 * max(1.0, nrm)):
@@ -182,18 +194,18 @@ def run_case(ctx, rng, graph, gkind, i):
         for step in range(int(rng.integers(1, 3))):
             mv = im.mean().as_vector()
             ctx.tap("object_mean_is_sample_mean", "calls"); ctx.tap("object_mean_is_sample_mean", "checked")
-            if _amax(mv - fed.mean(0)) > 1e-9 * max(1.0, float(np.abs(fed).max())):
+            if _amax(mv - fed.mean(0)) > 1e-9 * max(unit, float(np.abs(fed).max())):
                 ctx.fail("model_mean_is_not_the_sample_mean", cls="GMRFModel", mech="object_mean:" + ("after_increment" if step else "init"))
             d0 = float(im.mahalanobis_distance(im.mean()))
             if not (abs(d0) <= 1e-6 * max(1.0, nrm)):
                 ctx.fail("distance_at_the_mean_is_not_zero", cls="GMRFModel", mech="object_mean:" + ("after_increment" if step else "init"), got=d0)
-            more = gmrfmon.make_data(rng, int(rng.integers(2, 6)), V, k) + rng.normal(size=V * k)
+            more = (gmrfmon.make_data(rng, int(rng.integers(2, 6)), V, k) + rng.normal(size=V * k)) * unit
             im.increment([ms.PointCloud(row.reshape(V, k)) for row in more])
             fed = np.vstack([fed, more])
         mv = im.mean().as_vector()
-        if _amax(mv - fed.mean(0)) > 1e-9 * max(1.0, float(np.abs(fed).max())):
+        if _amax(mv - fed.mean(0)) > 1e-9 * max(unit, float(np.abs(fed).max())):
             ctx.fail("model_mean_is_not_the_sample_mean", cls="GMRFModel", mech="object_mean:after_increment")
-    ctx.count_case((gkind, V, int(graph.n_edges), k, mode, bias, np.dtype(dtype).name, "none" if trunc is None else ("below" if trunc < block else "above"), iso),
+    ctx.count_case((gkind, V, int(graph.n_edges), k, mode, bias, np.dtype(dtype).name, "none" if trunc is None else ("below" if trunc < block else "above"), iso, variant),
                    nontrivial=graph.n_edges >= 1 or (V >= 2 and k >= 2),
                    sample={"graph": gkind, "n_vertices": V, "edges": np.asarray(graph.edges).tolist()[:8], "features_per_vertex": k, "mode": mode, "bias": bias,
                            "dtype": np.dtype(dtype).name, "n_components": trunc, "n_samples": n} if i < 6 else None)
